@@ -44,6 +44,9 @@ func gOverlayObs(ov dom.OverlayDocument) string {
 	return "DObsOverlay " + gStrs(names) + " " + gList(docs, gNode)
 }
 
+// set by the generator for histories that are mostly unnamed adds (more than ten generated names)
+var c18ManyUnnamed bool
+
 func c18History(r *rand.Rand, n int) Case {
 	ds := analytics.NewDocumentSet()
 	ref := &refDS{ctx: map[string]*refCtx{}}
@@ -85,8 +88,16 @@ func c18History(r *rand.Rand, n int) Case {
 				}
 				// options are a set: any order of the same options must behave the same
 				r.Shuffle(len(opts), func(a, b int) { opts[a], opts[b] = opts[b], opts[a] })
-				unnamed := r.Intn(6) == 0
+				unnamed := r.Intn(6) == 0 || (c18ManyUnnamed && r.Intn(4) != 0)
 				via := r.Intn(3)
+				if via == 0 && !unnamed && r.Intn(4) == 0 {
+					// a reader add that is rejected (undecodable text, longer than any read-ahead) changes nothing,
+					// not even for the adds that follow
+					junk := "key: [unclosed\n" + strings.Repeat("more: {junk that never closes\n", 40)
+					if jerr := ds.AddDocumentFromReader(name, strings.NewReader(junk), dom.DefaultYamlDecoder, opts...); jerr == nil {
+						fail = append(fail, "AddDocumentFromReader accepted undecodable text")
+					}
+				}
 				var err error
 				if unnamed {
 					err = ds.AddUnnamedDocument(anyToContainer(doc), opts...)
@@ -218,7 +229,7 @@ func c18History(r *rand.Rand, n int) Case {
 func init() {
 	register(&Prop{
 		ID:   "C18",
-		Rule: "histories of 1-25 steps over 3 names (so re-adds occur) and 3 tags: AddDocument / AddDocumentFromReader (YAML) / AddUnnamedDocument with options in {none, WithTags, MergeTags, MustCreate}, given in random order (the same tags also split over two WithTags), interleaved with TaggedSubset(ts) (incl. '*', an unknown tag and the empty request), AsOne() (must equal TaggedSubset('*')), NamedDocument(n) (incl. unknown names). After every step the return status / LayerNames + every layer's content / served document vs the Coq model and vs a Go-side plain reference; no query may panic. An eighth of the cases: the pipeline template function mergeFiles over 1-3 YAML files = their ordered append-merge. Non-trivial: history re-adds a name successfully. Distinct by Gallina term.",
+		Rule: "histories of 1-25 steps over 3 names (so re-adds occur) and 3 tags: AddDocument / AddDocumentFromReader (YAML) / AddUnnamedDocument with options in {none, WithTags, MergeTags, MustCreate}, given in random order (the same tags also split over two WithTags), interleaved with TaggedSubset(ts) (incl. '*', an unknown tag and the empty request), AsOne() (must equal TaggedSubset('*')), NamedDocument(n) (incl. unknown names). After every step the return status / LayerNames + every layer's content / served document vs the Coq model and vs a Go-side plain reference; no query may panic. An eighth of the histories are mostly unnamed adds (more than ten generated names); reader adds are sometimes preceded by a rejected add of undecodable text. An eighth of the cases: the pipeline template function mergeFiles over 1-3 YAML files = their ordered append-merge. Non-trivial: history re-adds a name successfully. Distinct by Gallina term.",
 		Gen: func(r *rand.Rand, tier string, idx int) Case {
 			if idx%8 == 7 { // the pipeline template function mergeFiles: a document set of files, merged in order
 				o := defaultOpts()
@@ -230,6 +241,11 @@ func init() {
 					docs = append(docs, genDoc(r, o))
 				}
 				return c18MergeFiles(r, idx, docs)
+			}
+			if idx%8 == 3 {
+				c18ManyUnnamed = true
+				defer func() { c18ManyUnnamed = false }()
+				return c18History(r, 18+r.Intn(12))
 			}
 			return c18History(r, 1+r.Intn(25))
 		},
